@@ -54,6 +54,13 @@ def read_hdf5(filename):
                     dct[key] = value[()]
                 else:
                     dct[key] = xp.asarray(value[()])
+            # Restore lists of arrays with different shapes
+            elif isinstance(value, Group) and "list" in value.attrs:
+                arrays = [xp.asarray(value[str(i)][()]) for i in range(len(value))]
+                if value.attrs["list"] == "tuples":
+                    dct[key] = [(i,) for i in arrays]
+                else:
+                    dct[key] = arrays
             elif isinstance(value, Group):
                 dct[key] = read_hdf5_recursively(fh, f"{path}{key}/")
         # Create eminus objects from dictionaries, reuse the JSON helper function
@@ -120,6 +127,20 @@ def write_hdf5(obj, filename, compression="gzip", compression_opts=4):
                     compression=compression,
                     compression_opts=compression_opts,
                 )
+            # Lists of arrays with different shapes (e.g., a different basis size for every k-point) can not
+            # be stored as one dataset, create a group with one dataset per array instead
+            elif (
+                isinstance(value, list)
+                and len(value) > 0
+                and (xp.is_array(value[0]) or key == "_active")
+                and len({(i[0] if key == "_active" else i).shape for i in value}) > 1
+            ):
+                group = fp.create_group(f"{path}{key}")
+                group.attrs["list"] = "tuples" if key == "_active" else "arrays"
+                for i, ivalue in enumerate(value):
+                    group.create_dataset(
+                        str(i), data=xp.to_np(ivalue[0] if key == "_active" else ivalue)
+                    )
             elif xp.is_array(value) or (
                 isinstance(value, list) and len(value) > 0 and xp.is_array(value[0])
             ):
